@@ -113,7 +113,9 @@ def _equal_strategy(type_name):
 EDITS = ["add_node", "remove_node", "add_edge", "remove_edge", "change_weight", "change_coord",
          "flip_weighted", "flip_weighted_bare", "node_meta_value", "node_meta_add_key", "node_meta_remove_key",
          "edge_meta_value", "edge_meta_add_key", "edge_meta_remove_key",
-         "hg_meta_value", "hg_meta_add_key", "hg_meta_remove_key"]
+         "hg_meta_value", "hg_meta_add_key", "hg_meta_remove_key",
+         # the two objects differ only in the ORDER of a list-valued metadata value
+         "node_meta_list_order", "edge_meta_list_order", "hg_meta_list_order"]
 MARK = "CHANGED"
 
 
@@ -215,6 +217,22 @@ def apply_edit(T, U, e, kind):
                 # longer mentions the weightedness, only is_weighted() differs
                 X["hg_bare"] = True
         T2["weighted"] = not T["weighted"]
+    elif kind.endswith("_list_order"):
+        a, b = [1, 2, "x"], [2, 1, "x"]
+        if e["pick2"] % 2:
+            a, b = [0.5, 1, [3, 4]], [0.5, 1, [4, 3]]   # nested list
+        if kind.startswith("node_"):
+            if not nodes:
+                return None
+            n = nodes[e["pick"] % len(nodes)]
+            T1["nodes"][n]["zl"], T2["nodes"][n]["zl"] = dc(a), dc(b)
+        elif kind.startswith("edge_"):
+            if not keys:
+                return None
+            key = keys[e["pick"] % len(keys)]
+            T1["edges"][key][1]["zl"], T2["edges"][key][1]["zl"] = dc(a), dc(b)
+        else:
+            T1["hg_user"]["zl"], T2["hg_user"]["zl"] = dc(a), dc(b)
     elif kind.startswith("node_meta_"):
         if not nodes:
             return None
@@ -256,7 +274,8 @@ def check_edit(case, ctx):
         c1, c2 = B.target_as_content(k, T1), B.target_as_content(k, T2)
         if c1 == c2 and B._same_types(c1, c2):
             raise HarnessError("edit %r did not change the content" % (kind,))
-        if kind.startswith("flip_weighted"):    # the only edits that also adjust the first content
+        if kind.startswith("flip_weighted") or kind.endswith("_list_order"):
+            # the only edits that also adjust the first content
             hx, bx = B.build(T1, U, case["a"], hash_fn=_hash())
             v1 = _hash_checked(hx, "the first object")
         else:
